@@ -97,14 +97,14 @@ Print Assumptions C08_refs_resolve.
 
 (* every name of the description is an anchor *)
 Theorem C08_names_anchored : forall (t : item) (i : id), In i (ids_of t) -> In (KName i) (anchors_of (build t)).
-Proof. intros t i H. apply (proj1 ids_are_anchors). apply in_map. exact H. Qed.
+Proof. exact names_anchored. Qed.
 Print Assumptions C08_names_anchored.
 
 (* ---- VALID (structure): with pairwise distinct names, every oneOf of the generated schema has at
    least one alternative and the member names of every properties object are distinct. *)
 Theorem C08_valid_shape_partial : forall t : item,
   NoDup (ids_of t) -> build_raises t = false -> shape_ok (build t) = true.
-Proof. intros t H _. apply (proj1 build_shape). exact H. Qed.
+Proof. exact valid_shape_partial. Qed.
 Print Assumptions C08_valid_shape_partial.
 
 (* the full structural statement adds: no $anchor is declared twice (checked on every generated
